@@ -40,6 +40,8 @@ def enumerate_cases(tier, name="convert-mc"):
                              kinds=kinds, rot=t["rot"]))
     jobs.append(dict(lens=t["lens"], shard=[t["lens"][0]], maxops=t["maxops"], unnamed=t["unnamed"],
                      kinds=["P", "O", "X"], rot=t["rot"]))
+    jobs.append(dict(lens=t["lens"], shard=[t["lens"][0]], maxops=t["maxops"], unnamed=t["unnamed"],
+                     kinds=["H"], rot=t["rot"]))
 
     def one(i_par):
         i, par = i_par
@@ -318,6 +320,8 @@ def nontrivial(case):
 
 def focus_rt(case):
     """record type the case is about (last line of the enumerated document)"""
+    if case["kind"] == "H":      # hairpin documents are about the path, wherever its line stands
+        return "P" if case["ver"] == "gfa1" else "O"
     return case["text"].split(";")[-1].split("|")[0] if case["kind"] != "X" else "X"
 
 
@@ -401,7 +405,10 @@ def check_c06(out, tier, seed):
                        "with a CIGAR spanning the contained segment; E lines = every pair of valid intervals x "
                        "('*' + every enumerated CIGAR spanning them), named (and unnamed up to length %d); "
                        "%d path shapes (single/linear/circular/revisiting/self-loop/hairpin) x stored form "
-                       "(direct/complement/alternating) x named x overlaps-given x %d CIGAR rotations; 7 catalogue "
+                       "(direct/complement/alternating) x named x overlaps-given x %d CIGAR rotations; hairpin "
+                       "documents: link A+A-/A-A+ x (a)symmetric CIGARs x 1-2 paths stating the overlap as written/"
+                       "as complement/not x P lines after/before/around the L lines x alone/inside X+..X- x named, "
+                       "and the E line in its 4 forms x traversal +/-/implied x O before/after E; 7 catalogue "
                        "documents (tags, header, F/G/U/custom, trace, integer-like names)"
                        % (p["lens"], p["maxops"], p["unnamed"], 36, len(p["rot"])),
                 cases_by_kind=kinds, spec_states=dist, spec_laws_checked=dist, trace_states=states,
@@ -466,7 +473,9 @@ def selftest():
     with the expected clause (and to accept the uncorrupted log for that clause)."""
     docs = [("gfa1", "S|A|ACGTAC;S|B|*|LN:i:5;L|A|+|B|-|2M1D1M|ID:Z:l1"),
             ("gfa1", "S|A|ACGTAC;S|B|*|LN:i:3;C|A|+|B|+|2|2M1I|ID:Z:c1"),
-            ("gfa2", "S|A|6|ACGTAC;S|B|5|*;E|e1|A+|B+|3|6$|0|3|3M")]   # pure match: right on the pinned tree too
+            ("gfa2", "S|A|6|ACGTAC;S|B|5|*;E|e1|A+|B+|3|6$|0|3|3M"),   # pure match: right on the pinned tree too
+            ("gfa1", "S|A|ACGT;L|A|+|A|-|2M1I|ID:Z:hp;P|p|A+,A-|1D2M"),    # hairpin read as complement
+            ("gfa2", "S|A|4|ACGT;E|hp|A+|A-|2|4$|1|4$|2M1I;O|p|A+ hp- A-")]
     cases = [dict(id=i + 1, kind="T", ver=v, text=t) for i, (v, t) in enumerate(docs)]
     base = [run_case(c) for c in cases]
 
@@ -494,16 +503,27 @@ def selftest():
         (2, "change CIGAR", "C06.alignment", lambda x: fld(x, 5, lambda p: "2M1I1M") if x.startswith("L") else x),
         (2, "swap from/to", "C06.pair", lambda x: "\t".join([x.split("\t")[0], "B", "+", "A", "+"] + x.split("\t")[5:]) if x.startswith("L") else x),
     ]
+    muts = [m + ("gs", "gfa_s") for m in muts] + [
+        # reading direction of a hairpin: the traversal sign / the overlap that comes back
+        (3, "flip hairpin traversal", "C06.path", lambda x: x.replace("hp-", "hp+") if x.startswith("O") else x,
+         "gs", "gfa_s"),
+        (3, "overlap back as complement", "C06.roundtrip",
+         lambda x: x.replace("1D2M", "2M1I") if x.startswith("P") else x, "bk", "roundtrip"),
+        (4, "read hairpin other way", "C06.path", lambda x: x.replace("1D2M", "2M1I") if x.startswith("P") else x,
+         "gs", "gfa_s"),
+        (4, "traversal back flipped", "C06.roundtrip", lambda x: x.replace("hp-", "hp+") if x.startswith("O") else x,
+         "bk", "roundtrip"),
+    ]
     logs = list(base)
-    for n, (ci, what, clause, fn) in enumerate(muts):
-        l = edit(base[ci], "gs", fn)
+    for n, (ci, what, clause, fn, key, api) in enumerate(muts):
+        l = edit(base[ci], key, fn)
         l["id"] = 100 + n
         logs.append(l)
     rej, _ = validate(logs, "convert-selftest")
     ok = True
-    for n, (ci, what, clause, fn) in enumerate(muts):
-        before = ("gfa_s", clause) in rej.get(base[ci]["id"], [])
-        after = ("gfa_s", clause) in rej.get(100 + n, [])
+    for n, (ci, what, clause, fn, key, api) in enumerate(muts):
+        before = (api, clause) in rej.get(base[ci]["id"], [])
+        after = (api, clause) in rej.get(100 + n, [])
         good = after and not before
         print("selftest convert: %-26s on doc %d -> %s %s" % (what, ci + 1, clause, "rejected" if good else
                                                                "NOT DISTINGUISHED (before=%s after=%s)" % (before, after)))
